@@ -580,4 +580,78 @@ theorem route_perm (recs recs' : List (Bytes × Nat)) (path : Bytes) (hp : recs.
     · simp only [h2, Bool.false_eq_true, ↓reduceIte, lookup]
       rw [staticLookup_perm hst hinj path]
 
+
+/-! ## `denco.Mux`: the per-method wrapper inherits the router specification -/
+
+theorem mem_muxRecords {handlers : List (Bytes × Bytes)} {m : Bytes} {kv : Bytes × Nat}
+    (h : kv ∈ muxRecords handlers m) : ∃ hd, handlers[kv.2]? = some hd ∧ hd.1 = m ∧ hd.2 = kv.1 := by
+  unfold muxRecords at h
+  simp only [List.mem_filterMap] at h
+  obtain ⟨⟨hd, i⟩, hmem, hf⟩ := h
+  simp only at hf
+  split at hf
+  · rename_i hc
+    simp only [Option.some.injEq] at hf
+    subst hf
+    have := List.mem_zipIdx hmem
+    simp only [Nat.sub_zero, Nat.zero_add] at this
+    obtain ⟨_, hlt, heq⟩ := this
+    refine ⟨hd, ?_, by simpa using hc, rfl⟩
+    simp only
+    rw [List.getElem?_eq_getElem hlt]
+    exact congrArg some heq.symm
+  · cases hf
+
+/-- A request handled by `Mux` went to a handler registered under exactly the request's method
+(compared as spelled), and the match satisfies the whole router specification for the patterns
+registered under that method; anything else is answered by `NotFound` only if that specification
+allows a miss. -/
+theorem mux_spec (handlers : List (Bytes × Bytes)) (method path : Bytes) :
+    (∀ v names vals, muxServe handlers method path = .handled v names vals →
+      (∃ hd, handlers[v]? = some hd ∧ hd.1 = method) ∧
+      specLookup (muxRecords handlers method) path (.found v names vals) = true) ∧
+    (muxServe handlers method path = .notFound → method ∈ muxMethods handlers →
+      specLookup (muxRecords handlers method) path .notFound = true) := by
+  unfold muxServe
+  split
+  · exact ⟨fun _ _ _ h => (by cases h), fun h => (by cases h)⟩
+  · split
+    · rename_i hnb hm
+      unfold route
+      cases hb : build (muxRecords handlers method) with
+      | ok t =>
+        simp only
+        have hspec := lookup_spec _ t path hb
+        cases hl : lookup t path with
+        | found v names vals =>
+          simp only
+          rw [hl] at hspec
+          refine ⟨?_, fun h => (by cases h)⟩
+          intro v' n' vs' h
+          simp only [MuxOut.handled.injEq] at h
+          obtain ⟨rfl, rfl, rfl⟩ := h
+          refine ⟨?_, hspec⟩
+          have hs' := hspec
+          simp only [specLookup, List.any_eq_true, Bool.and_eq_true, beq_iff_eq] at hs'
+          obtain ⟨kv, hkv, hv, _⟩ := hs'
+          obtain ⟨hd, hget, hm1, _⟩ := mem_muxRecords hkv
+          exact ⟨hd, by rw [← hv]; exact hget, hm1⟩
+        | notFound =>
+          simp only
+          rw [hl] at hspec
+          exact ⟨fun _ _ _ h => (by cases h), fun _ _ => hspec⟩
+      | errReserved =>
+        exfalso
+        apply hnb
+        rw [List.any_eq_true]
+        exact ⟨method, by simpa using hm, by simp [hb]⟩
+      | errDupName =>
+        exfalso
+        apply hnb
+        rw [List.any_eq_true]
+        exact ⟨method, by simpa using hm, by simp [hb]⟩
+    · rename_i hm
+      refine ⟨fun _ _ _ h => (by cases h), fun _ hmem => ?_⟩
+      exfalso; apply hm; simpa using hmem
+
 end RtVerif.C05
